@@ -14,6 +14,8 @@ BUDGET = {'quick': 90, 'thorough': 1200}
 N = {'quick': 1600, 'thorough': 20000}
 FAMILIES = [('chain', 8), ('indep', 22), ('d4', 29), ('multiex', 47), ('conjcons', 77)]
 selftest = opcommon.selftest_birds
+HARD_TIMEOUT = 400
+SOFT_TIMEOUT = 300
 
 
 def cases(tier, seed):
